@@ -125,7 +125,8 @@ Adj(D, O, j, f, t, l, s) ==
 
 ---------------------------------------------------------------------------
 (* C11: slices                                                              *)
-LeadDay(l) == l \div 24                     \* whole 24 h periods; lead times are non-negative here
+\* the whole number of 24 h periods in the lead time: -6 h holds none (day 0), -30 h holds one, before the initialisation time (day -1)
+LeadDay(l) == IF l >= 0 THEN l \div 24 ELSE -((-l) \div 24)
 TimeBucket(axis, t) ==
   CASE axis = "time"        -> t
     [] axis = "year"        -> BucketYear(t)
